@@ -1441,7 +1441,7 @@ func (c *control) dirT(colon, at bool, params []any) {
 		}
 		c.out = append(c.out, spaces[:colnum]...)
 		from = c.column()
-		if from == from/colinc*colinc {
+		if colinc == 0 || from == from/colinc*colinc {
 			target = from
 		} else {
 			target = from/colinc*colinc + colinc
@@ -1450,7 +1450,11 @@ func (c *control) dirT(colon, at bool, params []any) {
 		from = c.column()
 		target = colnum * colinc
 		if target < from {
-			target = from/colinc*colinc + colinc
+			if colinc == 0 {
+				target = from // no column increment: nothing more is output
+			} else {
+				target = from/colinc*colinc + colinc
+			}
 		}
 	}
 	target -= from
@@ -1771,7 +1775,7 @@ const maxDirParam = 1 << 24
 
 // checkCount raises an error for a count or column beyond maxDirParam.
 func (c *control) checkCount(n int) {
-	if maxDirParam < n {
+	if maxDirParam < n || n < -maxDirParam {
 		slip.ErrorPanic(c.scope, 0, "directive parameter is too large at %d of %q", c.pos, c.str)
 	}
 }
